@@ -163,6 +163,10 @@ structure Proc where
   sysClock : Nat := 1
   dirs : AMap Nat DirSt := AMap.empty
   inst : Option Inst := none
+  /-- a second live instance of the same process, on another directory (C13); `inst` is the instance the
+  current operation addresses, `curDir` its directory -/
+  inst2 : Option Inst := none
+  curDir : Nat := 0
   deriving Repr
 
 inductive ErrKind where
